@@ -221,7 +221,7 @@ def shard(shard, nshards, n, tier, seed):
 
 def run(tier: str) -> int:
     run_ = Run(PROP, tier, "exploration", RULE)
-    n = 3 if tier == "quick" else 60
+    n = 2 if tier == "quick" else 50
     for part in run_shards(shard, 16, n=n, tier=tier, seed=verif_seed()):
         run_.merge(part)
     run_.assumptions = [
